@@ -30,7 +30,7 @@ func etcdConditionalWrites(m *Module, r *Report, rule string, fn *ssa.Function, 
 		} else {
 			keyArg = cc.Args[0]
 		}
-		if !dependsOnCall(keyArg, keyFns...) {
+		if !keyDependsOn(m, fn, keyArg, keyFns) {
 			continue
 		}
 		n++
@@ -161,6 +161,34 @@ func etcdConditionalWrites(m *Module, r *Report, rule string, fn *ssa.Function, 
 		}
 	}
 	return n
+}
+
+// keyDependsOn: the key argument is built by one of keyFns — in this function, or (when it is a
+// parameter) at every call site of this function.
+func keyDependsOn(m *Module, fn *ssa.Function, keyArg ssa.Value, keyFns []string) bool {
+	if dependsOnCall(keyArg, keyFns...) {
+		return true
+	}
+	p, ok := strip(keyArg).(*ssa.Parameter)
+	if !ok {
+		return false
+	}
+	idx := -1
+	for i, q := range fn.Params {
+		if q == p {
+			idx = i
+		}
+	}
+	sites := callersOf(m, funcName(fn))
+	if idx < 0 || len(sites) == 0 {
+		return false
+	}
+	for _, cs := range sites {
+		if !dependsOnCall(cs.in.Common().Args[idx], keyFns...) {
+			return false
+		}
+	}
+	return true
 }
 
 func checkC05(c *Ctx, r *Report) {
